@@ -161,6 +161,9 @@ class Ctx:
         (per-file locks), so that another property's slow or broken file can neither block
         nor fail this check.  setup_cmd (build_coq.sh) does the full `make` build."""
         ok, log = build_target(COQ / "Props" / (self.pid + ".v"))
+        ck = COQ / "Check" / (self.pid + "K.v")       # the K files import it; it is not a dependency of Props
+        if ok and ck.exists():
+            ok, log = build_target(ck)
         if not ok:
             self.notes.append("static build failed: " + log[-2000:])
         return ok
